@@ -92,7 +92,11 @@ impl<'a> Judge<'a> {
                     }
                     {
                         let mut e = self.errs.borrow_mut();
-                        let set = e.entry((o.name.to_string(), w.ct.len())).or_default();
+                        // single-bit corruptions of the wire bytes form their own class: same length, same structure, so
+                        // the error text must be one and the same (a text chosen by what the trial decryption looks like
+                        // is an oracle on the rejected bytes)
+                        let class = if kind == "bit_flip" && matches!(component, "tag" | "body" | "ephemeral_pk") { format!("{}#wire_bit_flip", o.name) } else { o.name.to_string() };
+                        let set = e.entry((class, w.ct.len())).or_default();
                         if set.len() < 64 {
                             set.insert(r.err.clone());
                         }
@@ -240,8 +244,10 @@ fn st_classic(w: &SWire, s: &[u8]) -> Option<SOut> {
     let mut mb = crate::mon::aead::sentinel_buf(s, w.ct.len() - 17);
     let pre = mb.get();
     let mut tag = TAG_SENTINEL;
+    let st_before = st.clone();
     let r = ss::crypto_secretstream_xchacha20poly1305_pull(&mut st, mb.slot(), &mut tag, &w.ct, w.ad.as_deref());
     let m = mb.get();
+    let state_changed_by_rejection = r.is_err() && st != st_before;
     let ok = r.is_ok();
     let err = r.as_ref().err().map(|e| e.to_string()).unwrap_or_default();
     let mut retry_ok = None;
@@ -250,7 +256,7 @@ fn st_classic(w: &SWire, s: &[u8]) -> Option<SOut> {
         let mut t2 = 0u8;
         retry_ok = Some(ss::crypto_secretstream_xchacha20poly1305_pull(&mut st, &mut m2, &mut t2, &w.genuine, w.genuine_ad.as_deref()).is_ok());
     }
-    Some(SOut { ok, got: m.clone(), got_tag: tag, err, msg_after: m, msg_before: pre, tag_after: tag, caller_buffer: true, retry_ok })
+    Some(SOut { ok, got: m.clone(), got_tag: tag, err: if state_changed_by_rejection { format!("STATE_CHANGED|{}", err) } else { err }, msg_after: m, msg_before: pre, tag_after: tag, caller_buffer: true, retry_ok })
 }
 
 fn st_object(w: &SWire, _s: &[u8]) -> Option<SOut> {
@@ -264,11 +270,13 @@ fn st_object(w: &SWire, _s: &[u8]) -> Option<SOut> {
         return None;
     }
     let adv = w.ad.clone();
+    let st_before = st.verif_state().clone();
     let r = st.pull_to_vec(&w.ct, adv.as_ref());
+    let changed = r.is_err() && *st.verif_state() != st_before;
     match r {
         Ok((m, t)) => Some(SOut { ok: true, got: m, got_tag: t.bits(), err: String::new(), msg_after: vec![], msg_before: vec![], tag_after: 0, caller_buffer: false, retry_ok: None }),
         Err(e) => {
-            let err = e.to_string();
+            let err = if changed { format!("STATE_CHANGED|{}", e) } else { e.to_string() };
             let retry_ok = if w.genuine_key_header { Some(st.pull_to_vec(&w.genuine, w.genuine_ad.as_ref()).is_ok()) } else { None };
             Some(SOut { ok: false, got: vec![], got_tag: 0, err, msg_after: vec![], msg_before: vec![], tag_after: 0, caller_buffer: false, retry_ok })
         }
@@ -323,9 +331,13 @@ fn stream_tampered(cx: &mut Ctx, prop: Prop, sentinel: &[u8], w: &SWire, compone
             }
             Prop::C17 => {
                 if !r.ok {
-                    let set = errs.entry((name.to_string(), w.ct.len())).or_default();
+                    let class = if kind == "bit_flip" && matches!(component, "tag" | "body" | "encrypted_tag_byte") { format!("{}#wire_bit_flip", name) } else { name.to_string() };
+                    let set = errs.entry((class, w.ct.len())).or_default();
                     if set.len() < 64 {
-                        set.insert(r.err.clone());
+                        set.insert(r.err.trim_start_matches("STATE_CHANGED|").to_string());
+                    }
+                    if r.err.starts_with("STATE_CHANGED|") {
+                        cx.violation(&format!("C17|{}|stream_state_modified_after_failed_open", name), case());
                     }
                 }
                 if r.ok || !r.caller_buffer {
@@ -423,7 +435,7 @@ fn enumerate_stream(cx: &mut Ctx, prop: Prop, sentinel: &[u8], w0: &SWire, msg: 
     if prop == Prop::C17 {
         for ((form, wlen), set) in errs.iter() {
             cx.eval();
-            if set.len() > 3 {
+            if set.len() > 3 || (form.ends_with("#wire_bit_flip") && set.len() > 1) {
                 let ex: Vec<&String> = set.iter().take(3).collect();
                 cx.violation(&format!("C17|{}|error_text_varies_with_rejected_input", form), json!({"wire_len":wlen,"distinct_error_texts":set.len(),"examples":ex}));
             }
@@ -509,7 +521,7 @@ fn run(cx: &mut Ctx, prop: Prop) {
                 // more distinct texts mean the text depends on the rejected bytes (or on the key)
                 for ((form, wlen), set) in judge.errs.borrow().iter() {
                     cx.eval();
-                    if set.len() > 3 {
+                    if set.len() > 3 || (form.ends_with("#wire_bit_flip") && set.len() > 1) {
                         let ex: Vec<&String> = set.iter().take(3).collect();
                         cx.violation(&format!("C17|{}|error_text_varies_with_rejected_input", form), json!({"wire_len":wlen,"distinct_error_texts":set.len(),"examples":ex}));
                     }
